@@ -16,7 +16,8 @@ RULE = ("history cases: random request histories (anonymize / undo / repeat an e
         "earlier result back in either direction / sibling of an earlier argument) on one anonymizer; every "
         "result is compared with a FRESH instance answering that single request (M4) and the memo invariants "
         "(write-once, inverse view mirrors, entries extend their parent, host-bit entries) are asserted after "
-        "every request (M3). file cases: the same generated files anonymized together, one by one, in permuted "
+        "every request (M3); a third of the histories is issued through anonymize_ip_addr(text, undo_ip_anon=...) instead of "
+        "the integer methods. file cases: the same generated files anonymized together, one by one, in permuted "
         "order and split line-wise (in-process; CLI child processes too in thorough) must give identical lines. "
         "distinct_nontrivial = distinct (config, history) pairs containing both directions on overlapping "
         "prefixes + distinct file sets.")
